@@ -1,11 +1,11 @@
 SPECIFICATION Spec
 CONSTANTS
   TopTypes = {"int", "ptr", "AI3", "AIX", "AC4", "ACX", "APX", "MC", "B", "N", "A", "U", "SA", "SC", "SW", "AS"}
-  MaxTok = 8
+  MaxTok = 6
   MaxIdx = 2
   AllowAgg = FALSE
   DevOn = {"AnonNoMem", "EmptyBraceNoFocus", "BraceNoReset", "UnionCover", "StrPatchOOB", "AutoBackZero", "ReplaceEndOnly"}
-  Salt = 0
+  Salt = 5
   EmitCases = TRUE
   Prune = TRUE
 INVARIANTS TypeOK StackDepth ListSortedDisjoint Refinement Emit
